@@ -37,14 +37,16 @@ type sensorStep struct {
 }
 
 type sensorIn struct {
-	Kind     string       `json:"kind"` // hwmon | file | cmd
-	N        int          `json:"n"`
-	InitMode string       `json:"initMode"` // read | set
-	InitStep sensorStep   `json:"initStep"`
-	InitSet  string       `json:"initSet"` // hex float
-	Steps    []sensorStep `json:"steps"`
-	Monitor  bool         `json:"monitor,omitempty"` // run through the real monitor loop (drv_sensor_mon.go); steps = planned reads
-	PollUs   int          `json:"pollUs,omitempty"`  // monitor polling rate in microseconds
+	Kind     string             `json:"kind"` // hwmon | file | cmd
+	N        int                `json:"n"`
+	InitMode string             `json:"initMode"` // read | set
+	InitStep sensorStep         `json:"initStep"`
+	InitSet  string             `json:"initSet"` // hex float
+	Steps    []sensorStep       `json:"steps"`
+	Monitor  bool               `json:"monitor,omitempty"` // run through the real monitor loop (drv_sensor_mon.go); steps = planned reads
+	PollUs   int                `json:"pollUs,omitempty"`  // monitor polling rate in microseconds
+	Startup  bool               `json:"startup,omitempty"` // created by the real start-up glue (drv_sensor_startup.go)
+	Chip     *sensorStartupChip `json:"chip,omitempty"`    // startup + hwmon: the fake chip
 }
 
 type sensorObs struct {
@@ -511,6 +513,9 @@ func init() {
 			var coq string
 			if in.Monitor {
 				obs, coq = sensorMonRun(ctx, in)
+			} else if in.Startup {
+				o, c := sensorStartupRun(ctx, []sensorIn{in})
+				obs, coq = o[0], c[0]
 			} else {
 				obs, coq = sensorRun(ctx, in)
 			}
@@ -542,6 +547,27 @@ func init() {
 		for i := 0; i < ctx.Param("monitor", 30); i++ {
 			in, tags := sensorMonGen(mr)
 			emit(in, tags...)
+		}
+		// sensors created by the real start-up glue (GetChips on a fake chip + initializeSensors): one hwmon,
+		// one file and one cmd sensor per InitializeObjects call
+		sr := NewRng(ctx.Seed, "sensor-startup")
+		for i := 0; i < ctx.Param("startup", 40); i++ {
+			var ins []sensorIn
+			var tagss [][]string
+			hin, htags := sensorStartupGenHwmon(sr)
+			ins, tagss = append(ins, hin), append(tagss, htags)
+			for _, kind := range []string{"file", "cmd"} {
+				oin, otags := sensorStartupGenOther(sr, kind)
+				ins, tagss = append(ins, oin), append(tagss, otags)
+			}
+			obss, coqs := sensorStartupRun(ctx, ins)
+			for j := range ins {
+				distinct := map[string]bool{obss[j].Init: true}
+				for _, a := range obss[j].Avgs {
+					distinct[a] = true
+				}
+				ctx.Emit(Record{In: ins[j], Obs: obss[j], Coq: coqs[j], Tags: tagss[j], NonTrv: len(distinct) >= 2})
+			}
 		}
 		hr := NewRng(ctx.Seed, "sensor-hostile")
 		for i := 0; i < nh; i++ {
